@@ -293,7 +293,7 @@ def _replay_wrap(fn, tag, fmt):
 
 ASSUMES = ["A-PY", "A-INST", "A-DJ"]
 NOT_COVERED = [
-    "HtmlAttrsNode.render (defaults/attrs merge with dict.update and **kwargs) and _normalize_slot_fills (escape exactly once) are not yet under contract",
+    "HtmlAttrsNode.render (defaults/attrs merge with dict.update and **kwargs) is covered only by the BOUNDED stand-in bounded#html_attrs_tag_emits_exactly_the_merged_attributes; _normalize_slot_fills (slot content escaped exactly once) is not under contract",
     "HTML-parser reading of the output is represented by the two escaping lemmas only",
 ]
 
@@ -323,3 +323,12 @@ def _f13b(w):
 FINDING_REPLAYS = {"F-C13a": _f13a, "F-C13b": _f13b}
 
 import contracts.c13b  # noqa: E402,F401  (merge_repeated_kwargs: html_attrs repeated keys)
+
+def _bounded_html_attrs(tier, repo):
+    from harness.bounded_html_attrs import run
+    return run(repo)
+
+
+REG.bounded_check("bounded#html_attrs_tag_emits_exactly_the_merged_attributes", P, _bounded_html_attrs,
+                  note="HtmlAttrsNode.render / resolve_params and the tag plumbing are not under contract as a whole: 3072 {% html_attrs %} tags (attrs / defaults dicts, plain, repeated and special-character kwargs; plain, special, SafeString, True, False, None values) are rendered for real, the output is parsed by html.parser and compared with the property; inputs inside the region of F-C13a (appending to a non-str value) only have to fail with that TypeError")
+
